@@ -244,7 +244,31 @@ def persist_shapes_history(rng):
     return {"ops": ops, "sources": [101, 102]}
 
 
-OPTS["C17"]["templates"] = [persist_shapes_history]
+def persist_force_fail_history(rng):
+    """persist next to --force and next to a failing sibling: an edited source / a hand-edited product with
+    --force (persist wins: PERSISTENCE, recorded), and a build in which the persist task is persisted while an
+    unrelated task fails (the persisted states are recorded all the same: the next build is quiet)"""
+    def tk(i, deps, prods, **kw):
+        d = {"id": i, "module": 1, "deps": deps, "prods": prods, "mver": 0, "skip": False, "skipifs": [], "persist": False, "prio": 0,
+             "marks": [], "attrs": [], "after_fn": [], "after_expr": None, "use_decorator": False}
+        d.update(kw)
+        return d
+    cfg = {"force": False, "dry_run": False, "max_failures": None, "expression": "", "marker_expression": "", "capture": "no"}
+    ts = [tk(1, [101], [111], persist=True), tk(2, [102], [112]), tk(3, [111], [113])]
+    rng.shuffle(ts)
+    def b(faults=None, **kw):
+        return {"op": "build", "tasks": ts, "cfg": dict(cfg, **kw), "faults": faults or {}}
+    ops = [{"op": "set", "n": 101, "c": rng.randint(1, 50)}, {"op": "set", "n": 102, "c": rng.randint(1, 50)}, b()]
+    edit = rng.choice([{"op": "set", "n": 101, "c": rng.randint(51, 99)}, {"op": "set", "n": 111, "c": rng.randint(500, 600)}])
+    if rng.random() < 0.5:
+        ops += [edit, b(force=True), b()]
+    else:
+        # the sibling fails in the build that persists task 1
+        ops += [edit, {"op": "set", "n": 102, "c": rng.randint(51, 99)}, b(faults={"2": rng.choice(["raise_before", "raise_after"])}), b(), b()]
+    return {"ops": ops, "sources": [101, 102]}
+
+
+OPTS["C17"]["templates"] = [persist_shapes_history, persist_force_fail_history]
 OPTS["C17"]["ntemplates"] = 6
 def retamper_history(rng):
     """a product is overwritten by hand, the build repairs it, and it is overwritten with the SAME content again"""
